@@ -1,7 +1,7 @@
 //! C03: programs of layout-agnostic matrix API calls, enumerated by TLC (MC_MatProg), replayed on a
 //! row-major and a column-major value side by side.  After every call each value is projected to the
-//! abstract matrix through five independent routes (indexing, row array, column array, flat slice
-//! view + OpenGL transpose flag, Display); all ten projections are logged and must equal the
+//! abstract matrix through eight independent routes (indexing, row array, column array, flat slice
+//! view + OpenGL transpose flag, raw pointer view, mint row / column matrix, Display); all sixteen projections are logged and must equal the
 //! specification's abstract matrix (Trace_MatProg).
 use crate::alg::*;
 use crate::util::*;
@@ -52,8 +52,30 @@ impl AnyMat {
             C2(m) => (m.as_col_slice().to_vec(), m.gl_should_transpose()), C3(m) => (m.as_col_slice().to_vec(), m.gl_should_transpose()), C4(m) => (m.as_col_slice().to_vec(), m.gl_should_transpose()),
         };
         let sl = unflat(n, &slice, flag);
+        // the same storage read through the raw pointer accessors (valid for n*n reads exactly when is_packed())
+        let (ptr, packed): (Vec<i32>, bool) = {
+            fn rd(p: *const i32, k: usize) -> Vec<i32> { (0..k).map(|i| unsafe { *p.add(i) }).collect() }
+            match self {
+                R2(m) => (rd(m.as_row_ptr(), 4), m.is_packed()), R3(m) => (rd(m.as_row_ptr(), 9), m.is_packed()), R4(m) => (rd(m.as_row_ptr(), 16), m.is_packed()),
+                C2(m) => (rd(m.as_col_ptr(), 4), m.is_packed()), C3(m) => (rd(m.as_col_ptr(), 9), m.is_packed()), C4(m) => (rd(m.as_col_ptr(), 16), m.is_packed()),
+            }
+        };
+        let pt = unflat(n, &ptr, flag);
+        // through the interoperability types (feature mint): the row matrix lists rows, the column matrix columns
+        let (mr, mc): (Vec<i32>, Vec<i32>) = {
+            use vek::mint as mt;
+            match self {
+                R2(m) => ({ let a: [[i32; 2]; 2] = Into::<mt::RowMatrix2<i32>>::into(*m).into(); a.concat() }, { let a: [[i32; 2]; 2] = Into::<mt::ColumnMatrix2<i32>>::into(*m).into(); a.concat() }),
+                R3(m) => ({ let a: [[i32; 3]; 3] = Into::<mt::RowMatrix3<i32>>::into(*m).into(); a.concat() }, { let a: [[i32; 3]; 3] = Into::<mt::ColumnMatrix3<i32>>::into(*m).into(); a.concat() }),
+                R4(m) => ({ let a: [[i32; 4]; 4] = Into::<mt::RowMatrix4<i32>>::into(*m).into(); a.concat() }, { let a: [[i32; 4]; 4] = Into::<mt::ColumnMatrix4<i32>>::into(*m).into(); a.concat() }),
+                C2(m) => ({ let a: [[i32; 2]; 2] = Into::<mt::RowMatrix2<i32>>::into(*m).into(); a.concat() }, { let a: [[i32; 2]; 2] = Into::<mt::ColumnMatrix2<i32>>::into(*m).into(); a.concat() }),
+                C3(m) => ({ let a: [[i32; 3]; 3] = Into::<mt::RowMatrix3<i32>>::into(*m).into(); a.concat() }, { let a: [[i32; 3]; 3] = Into::<mt::ColumnMatrix3<i32>>::into(*m).into(); a.concat() }),
+                C4(m) => ({ let a: [[i32; 4]; 4] = Into::<mt::RowMatrix4<i32>>::into(*m).into(); a.concat() }, { let a: [[i32; 4]; 4] = Into::<mt::ColumnMatrix4<i32>>::into(*m).into(); a.concat() }),
+            }
+        };
+        let (mintr, mintc) = (unflat(n, &mr, true), unflat(n, &mc, false));
         let disp = each!(self, m => parse_display(n, &format!("{}", m)));
-        json!({"idx": idx, "rows": rowa, "cols": cola, "slice": sl, "disp": disp, "flag": flag as i64, "lay": if self.is_rows() { "r" } else { "c" }, "named_order": (self.is_rows() == flag) as i64})
+        json!({"idx": idx, "rows": rowa, "cols": cola, "slice": sl, "ptr": pt, "mintr": mintr, "mintc": mintc, "packed": packed as i64, "disp": disp, "flag": flag as i64, "lay": if self.is_rows() { "r" } else { "c" }, "named_order": (self.is_rows() == flag) as i64})
     }
     /// one call of the machine
     pub fn call(self, c: &str, arg: i64) -> AnyMat {
@@ -103,6 +125,18 @@ impl AnyMat {
             "slice_write" => match self {
                 R2(mut m) => { m.as_mut_row_slice()[1] = 777; R2(m) } R3(mut m) => { m.as_mut_row_slice()[1] = 777; R3(m) } R4(mut m) => { m.as_mut_row_slice()[1] = 777; R4(m) }
                 C2(mut m) => { m.as_mut_col_slice()[n] = 777; C2(m) } C3(mut m) => { m.as_mut_col_slice()[n] = 777; C3(m) } C4(mut m) => { m.as_mut_col_slice()[n] = 777; C4(m) }
+            },
+            // out to the interoperability matrix of the named order and back in: the same abstract matrix
+            "mint_r" => { use vek::mint as mt; match self {
+                R2(m) => R2(Into::<mt::RowMatrix2<i32>>::into(m).into()), R3(m) => R3(Into::<mt::RowMatrix3<i32>>::into(m).into()), R4(m) => R4(Into::<mt::RowMatrix4<i32>>::into(m).into()),
+                C2(m) => C2(Into::<mt::RowMatrix2<i32>>::into(m).into()), C3(m) => C3(Into::<mt::RowMatrix3<i32>>::into(m).into()), C4(m) => C4(Into::<mt::RowMatrix4<i32>>::into(m).into()) } }
+            "mint_c" => { use vek::mint as mt; match self {
+                R2(m) => R2(Into::<mt::ColumnMatrix2<i32>>::into(m).into()), R3(m) => R3(Into::<mt::ColumnMatrix3<i32>>::into(m).into()), R4(m) => R4(Into::<mt::ColumnMatrix4<i32>>::into(m).into()),
+                C2(m) => C2(Into::<mt::ColumnMatrix2<i32>>::into(m).into()), C3(m) => C3(Into::<mt::ColumnMatrix3<i32>>::into(m).into()), C4(m) => C4(Into::<mt::ColumnMatrix4<i32>>::into(m).into()) } }
+            // write through the raw mutable pointer at the position of element (row 1, column 0)
+            "ptr_write" => match self {
+                R2(mut m) => { unsafe { *m.as_mut_row_ptr().add(n) = 888; } R2(m) } R3(mut m) => { unsafe { *m.as_mut_row_ptr().add(n) = 888; } R3(m) } R4(mut m) => { unsafe { *m.as_mut_row_ptr().add(n) = 888; } R4(m) }
+                C2(mut m) => { unsafe { *m.as_mut_col_ptr().add(1) = 888; } C2(m) } C3(mut m) => { unsafe { *m.as_mut_col_ptr().add(1) = 888; } C3(m) } C4(mut m) => { unsafe { *m.as_mut_col_ptr().add(1) = 888; } C4(m) }
             },
             other => panic!("unknown call {}", other),
         }
@@ -160,8 +194,8 @@ pub fn drive_matprog(args: &[String]) {
         for (n0, calls) in progs { run_program(&mut d, n0, &calls, "tlc"); }
     }
     // long random programs
-    const NAMES: [&str; 25] = ["transposed", "transpose", "convert_layout", "resize", "rr", "cc", "rc", "cr", "RR", "CC", "RC", "CR", "identity", "zero",
-        "with_diagonal", "broadcast_trace", "map", "apply", "map2", "apply2", "as", "numcast", "set", "slice_write", "resize"];
+    const NAMES: [&str; 28] = ["transposed", "transpose", "convert_layout", "resize", "rr", "cc", "rc", "cr", "RR", "CC", "RC", "CR", "identity", "zero",
+        "with_diagonal", "broadcast_trace", "map", "apply", "map2", "apply2", "as", "numcast", "set", "slice_write", "resize", "ptr_write", "mint_r", "mint_c"];
     for _ in 0..n {
         let n0 = 2 + d.pick(3);
         let len = 1 + d.pick(maxlen);
